@@ -7,9 +7,11 @@
                         (`(a + b)`, `f(a, b)`, no space elsewhere)
     JsOkE / JsOkL       the expression fragment of the link theorems (decidable, a Bool)
     prS / txS           tokens / text of one statement line, prBody / txBody of a handler body
-    prFunc / txFunc ... tokens / text of the three script wrappers
-    JsOkS, JsOkH ...    the statement / handler / script fragments
+    prMethod / prTop / prProg, txFunc / txMethod / txClass / txClassProg   tokens / text of the three script wrappers
+    wrapperFunc, factoryFunc   the fixed functions the class wrappers add (as `Spec.JFunc` trees)
+    JsOkS, JsOkH, JsLinkScript   the statement / handler / script fragments
     EmbSJ               `Link.EmbS` plus what the JavaScript generator reads beyond it (CallFunction.with_result)
+    modelGenJs          the model as a translator bytes → text (`parseScript` then `genJs`)
 -/
 import Drx.Link
 import Drx.Spec.JsRead
@@ -141,12 +143,13 @@ def JsOkLv : Expr → Bool
   | _ => false
 
 /-- statements of the JavaScript link theorems: `set <variable> = e`, command calls `f a, b` (incl. calls of handlers of the
-    same script: `fn_call(f(a, b))`), `return` / `return e` -/
+    same script: `fn_call(f(a, b))`), `return` / `return e`, `exit` -/
 def JsOkS : Stmt → Bool
   | .set lv v => JsOkLv lv && JsOkE v
   | .call f as =>
     if f = "return".toList then (match as with | [] => true | [e] => JsOkE e | _ => false)
     else jsIdOk f && !specialCall f && !(listFn f && headIsSym as) && JsOkL as
+  | .exit => true
   | _ => false
 
 def JsOkSs : List Stmt → Bool
@@ -159,6 +162,7 @@ def EmbSJ (handlers : List Name) : Stmt → Node → Prop
   | .set lv v, n => Link.EmbS (.set lv v) n
   | .call f as, n => ∃ p q q' ops, n = .stmt p (.callFn (.s f) q (.loadList (S "load_list") q' ops.reverse) true false
       (handlers.contains f) .none) ∧ Link.EmbL as ops
+  | .exit, n => ∃ p q, n = .stmt p (.callFn (.s (S "exit")) q .none true false false .none)
   | _, _ => False
 
 def EmbSsJ (handlers : List Name) : List Stmt → List Node → Prop
@@ -167,14 +171,9 @@ def EmbSsJ (handlers : List Name) : List Stmt → List Node → Prop
 
 /-! ### handlers and the three script wrappers -/
 
-def prParams : List JE → List JTok
-  | [] => []
-  | [e] => prJ e
-  | e :: e2 :: es => prJ e ++ .p .comma :: prParams (e2 :: es)
-
 /-- `name(params) { body }` -/
 def prMethod (f : JFunc) : List JTok :=
-  .id f.name :: .p .lp :: prParams f.params ++ .p .rp :: .p .lc :: prBody f.body ++ [.p .rc]
+  .id f.name :: .p .lp :: prJArgs f.params ++ .p .rp :: .p .lc :: prBody f.body ++ [.p .rc]
 
 def prTop : JTop → List JTok
   | .func f => .id "function".toList :: prMethod f
@@ -205,10 +204,40 @@ def txMethod (f : JFunc) : Str :=
 
 /-- handlers of the fragment: identifier names, body in `JsOkSs` -/
 def JsOkH (h : Handler) : Bool :=
-  jsIdOk h.name && h.params.all (fun p => jsIdOk p) && h.locals.all (fun p => jsIdOk p) && JsOkSs h.body && !h.isMethod
+  jsIdOk h.name && h.params.all (fun p => jsIdOk p) && h.locals.all (fun p => jsIdOk p) && JsOkSs h.body
 
 def JsOkHs : List Handler → Bool
   | [] => true
   | h :: hs => JsOkH h && JsOkHs hs
+
+/-- the wrapper function of one handler of a property script: `function name(obj, ...args) { return obj.name(...args); }` -/
+def wrapperFunc (name : Name) : JFunc :=
+  { name := name, params := [jid "obj", .spread "args".toList],
+    body := [.ret [.call (.mem (jid "obj") name) [.spread "args".toList]]] }
+
+/-- the dispatcher function of a factory: `function F(methodName, ...args) { return factoryCall('F', methodName, args); }` -/
+def factoryFunc (name : Name) : JFunc :=
+  { name := name, params := [jid "methodName", .spread "args".toList],
+    body := [.ret [jcall "factoryCall" [.sstr name, jid "methodName", jid "args"]]] }
+
+/-- `class C extends B {` methods `}` and a blank line -/
+def txClass (cname base : Name) (ms : List JFunc) : Str :=
+  S "class " ++ cname ++ S " extends " ++ base ++ S " {" ++ (ms.map txMethod).flatten ++ S "}\n\n"
+
+/-- a class followed by functions without separating blank lines (property scripts and factories) -/
+def txClassProg (cname base : Name) (ms ws : List JFunc) : Str := txClass cname base ms ++ (ws.map txFunc).flatten
+
+/-- the model as a JavaScript translator in the sense of `DrxProps.C04.C04_full` -/
+def modelGenJs (lscr lnam : Bytes) : Option (List Char) :=
+  match Lscr.parseScript lscr lnam with
+  | .ok t =>
+    match (Lscr.genJs t).1 with
+    | .ok txt => some txt
+    | .error _ => none
+  | .error _ => none
+
+/-- scripts of the composed theorem: agent-link's `FragScript` (what the compile → parse chain covers: no factory, `property` /
+    `global` lines, any number of handlers) with every handler in the JavaScript fragment -/
+def JsLinkScript (s : Script) : Bool := Link.FragScript s && JsOkHs s.handlers
 
 end Drx.LinkJs
